@@ -106,7 +106,7 @@ func (h *Harness) sysTable(spec *RunSpec) map[[4]int]string {
 				if _, ok := tab[key]; ok {
 					continue
 				}
-				resetGlobals()
+				resetGlobals(spec)
 				if state > 0 {
 					f := filepath.Join(h.Scratch, "cache-table")
 					os.Remove(f)
@@ -143,7 +143,7 @@ func (h *Harness) executeSys(spec *RunSpec, rep *RunReport, out *Outcome) error 
 	h.progress(spec.Run, "ref")
 	table := h.sysTable(spec)
 	h.progress(spec.Run, "sim")
-	resetGlobals()
+	resetGlobals(spec)
 	cfg := spec.Sim
 	cfg.StepBudget = make([]int, len(spec.Tasks))
 	for i := range cfg.StepBudget {
@@ -190,8 +190,15 @@ func (h *Harness) executeSys(spec *RunSpec, rep *RunReport, out *Outcome) error 
 			}
 		}
 	}
+	if h.QuiescenceWait != nil {
+		sim.SetQuiescenceWait(h.QuiescenceWait)
+	}
 	sim.Run(bodies)
 	simrt.SetLiveSites(nil)
+	leaked := map[int]bool{}
+	for _, id := range sim.Stats().Leaked {
+		leaked[id] = true
+	}
 	out.Recorded = sim.Recorded()
 	out.Stats = sim.Stats()
 	out.Trace = sim.Trace
@@ -207,6 +214,11 @@ func (h *Harness) executeSys(spec *RunSpec, rep *RunReport, out *Outcome) error 
 	hist := &SysHistory{Table: table}
 	rh := newHasher()
 	for t := range recs {
+		if leaked[t] {
+			rep.Violations = append(rep.Violations, Violation{Class: "deadlock", Task: t, Op: "system-font-cache",
+				Detail: fmt.Sprintf("task %d is blocked forever outside the simulator's primitives after every other task has finished", t), Sig: "deadlock:blocked-forever"})
+			continue
+		}
 		for s, r := range recs[t] {
 			if !r.done {
 				rep.Violations = append(rep.Violations, Violation{Class: "deadlock-or-budget", Task: t, Step: s, Op: r.in.Op,
